@@ -119,9 +119,17 @@ def field_names(g, names, as_string=False):
     return ", ".join(fn) if as_string else fn
 
 
-def make_graph(S, g, names, floats=False, as_string=False):
+def graph_columns(g, floats=False):
+    """The column lists of a spec graph; columns with the same g["rep"] are ONE list object."""
     cols = [[num(fr(p), floats) for p in col] for col in g["cols"]]
-    return S.graph(cols, field_names=field_names(g, names, as_string), scale=num(fr(g["scale"]), floats))
+    rep = g.get("rep") or list(range(1, len(cols) + 1))
+    return [cols[rep[k] - 1] for k in range(len(cols))]
+
+
+def make_graph(S, g, names, floats=False, as_string=False, cols=None):
+    if cols is None:
+        cols = graph_columns(g, floats)
+    return S.graph(list(cols), field_names=field_names(g, names, as_string), scale=num(fr(g["scale"]), floats))
 
 
 def _is_ref(val):
@@ -469,11 +477,19 @@ def replay_graph(ctx, rec, k, report):
     names = NAME_SETS[k % len(NAME_SETS)]
     floats = (k % 3 == 2)
     where = "dim=%d:nerr=%d" % (g0["dim"], len(g0["errs"]))
+    shared = sorted(set(r for j, r in enumerate(g0.get("rep") or [], 1) if r != j))
+    if shared:
+        where += ":one-list-given-for-two-columns"
     try:
-        g = make_graph(S, g0, names, floats, as_string=(k % 5 == 1))
+        cols = graph_columns(g0, floats)
+        # a second graph made from the same column objects, before anything is rescaled
+        twin = make_graph(S, g0, names, floats, cols=cols) if "rep" in g0 else None
+        g = make_graph(S, g0, names, floats, as_string=(k % 5 == 1), cols=cols)
     except Exception as exc:   # noqa
         report("graph:construct:%s:raised:%s" % (where, exc_name(exc)), {"start": g0, "names": names, "exception": repr(exc)})
         return
+    twin0 = copy.deepcopy(twin.coords) if twin is not None else None
+    given0 = copy.deepcopy(cols)
     fn0 = g.field_names
     for j, op in enumerate(rec["ops"]):
         detail = {"start": g0, "ops": rec["ops"][:j + 1], "names": names, "field_names": repr(fn0)}
@@ -504,6 +520,13 @@ def replay_graph(ctx, rec, k, report):
             return
         want = op["g"]
         scaled = set([want["dim"]] + [want["dim"] + i + 1 for i, e in enumerate(want["errs"]) if e["c"] == want["dim"]])
+        if twin is not None and [list(c) for c in twin.coords] != twin0:
+            report("graph.%s:changed-another-graph-made-from-the-same-lists:%s" % (op["op"], where),
+                   dict(detail, twin_before=repr(twin0), twin_after=repr(twin.coords)))
+            return
+        if twin is not None and op["op"] == "getscale" and cols != given0:
+            report("graph.scale():changed-the-lists-it-was-given:%s" % where, dict(detail, observed=repr(cols)))
+            return
         if len(g.coords) != len(want["cols"]) or g.field_names != fn0:
             report("graph.scale:structure-changed:%s" % where, dict(detail, observed=repr(g)))
             return
